@@ -168,4 +168,19 @@ Proof.
     rewrite <- (call_pt_exact x d j Hr Hj). auto.
 Qed.
 
+(* the same facts with [restored] / [state_at] spelled out, for the pinned statements *)
+Lemma call_pt_coords (x : list A) (d : A) (j k : nat) : j < length x ->
+  nth k (call_pt x d j) zero =
+    if k =? j then add (nth j x zero) d else if k <? j then sub (add (nth k x zero) d) d else nth k x zero.
+Proof. exact (call_pt_nth x d j k). Qed.
+
+Lemma jacobian_final_state_lemma (f : list A -> res (list A)) (x : list A) (d : A) st J evs :
+  jacobian_tr O f x d = Ok (st, J, evs) ->
+  length st = length x /\
+  forall k, nth k st zero = if k <? length x then sub (add (nth k x zero) d) d else nth k x zero.
+Proof.
+  intros H. apply jacobian_tr_state in H. subst st. split; [apply state_at_length|].
+  intros k. apply state_at_nth. apply le_n.
+Qed.
+
 End Gen.
